@@ -178,7 +178,7 @@ def _build():
             pre_op_hook=estimate_hook(),
             measure_p=0.05,
         ),
-        lambda: [c03.C03()],
+        lambda: [c03.C03(), c09.Relabel(c07.C07(), "C03/barrier-", only=("C07/shift-time", "C07/barrier"))],
         nontrivial_fn=c03.nontrivial,
         world_kw={"bw_bias": 0.8},
         assumptions=["Pulse.fall_time of the real code is a trusted input", "scheduled phases are read from the SUT (phase arithmetic is C07's business)"],
